@@ -233,4 +233,23 @@ theorem nested_nodes_use_only_the_supported_vocabulary (name : Bytes) (args extr
     have := resolved_names_are_vocabulary_words _ hv _ _ hd
     rwa [hk] at this
 
+/-- **the tags each command admits are exactly the supported ones** (frozen, hand-written): a tag that wandered from
+    one command's definition into another's (a shared table entry, a copy-and-paste) breaks this obligation -/
+theorem live_table_admits_exactly_the_supported_tags : Spec.TagsExactly Generated.builtinTable = true := by
+  decide +kernel
+
+/-- a tag admitted by the value list of a tag slot of a definition is one of the tags the frozen vocabulary gives that
+    command (with `accepted_scripts_have_correctly_typed_arguments`: every tag recorded in an accepted tree sits in such a slot) -/
+theorem listed_tags_are_supported_tags (T : Table) (hT : Spec.TagsExactly T = true) (d : CmdDef) (hd : d ∈ T)
+    (slot : ArgDef) (hs : slot ∈ d.args) (htag : ArgType.tag ∈ slot.types) (t : Bytes)
+    (ht : t ∈ (slot.values.getD []) ++ slot.extValues.map (·.1)) : t ∈ Spec.frozenTags d.name := by
+  have h0 := List.all_eq_true.1 hT d hd
+  rw [Bool.and_eq_true] at h0
+  have h2 := List.all_eq_true.1 h0.1 t (by
+    unfold Spec.tagsOf
+    refine List.mem_flatMap.2 ⟨slot, hs, ?_⟩
+    simp only [htag, decide_true, if_true]
+    exact ht)
+  simpa using h2
+
 end C01
